@@ -93,6 +93,9 @@ func denseBatch(a wsp.Arch, arch int) AOp {
 // LongJump is a clock advance of 6.3 years (more than 2^31/12 seconds).
 const LongJump = int64(200000000)
 
+// LongJump2 is a clock advance of 12.7 years: more than 2^31/12 slots of 2 s.
+const LongJump2 = int64(400000006)
+
 func c01Gen(archs []wsp.Arch) func(AState, int) []AOp {
 	rmax := archs[len(archs)-1].Ret()
 	return func(st AState, d int) []AOp {
